@@ -4,7 +4,7 @@ from __future__ import annotations
 
 import sched
 from harness import seam
-from harness.common import PART, REPLAY, concretize, result, untraced
+from harness.common import PART, REPLAY, concretize, concretize_bs, result, untraced
 from harness.models import *  # noqa: F401,F403
 from vlib.jobs import Job
 
@@ -17,14 +17,19 @@ META = {
         "xsdata.formats.dataclass.context:XmlContext.find_types", "xsdata.formats.dataclass.context:XmlContext.build_xsi_cache", "xsdata.formats.dataclass.context:XmlContext.find_subclass",
         "xsdata.formats.dataclass.context:XmlContext.find_type_by_fields", "xsdata.formats.dataclass.context:XmlContext.local_names_match",
         "xsdata.formats.dataclass.models.elements:XmlVar.match_namespace",
+        "fullcall: xsdata.formats.dataclass.parsers:XmlParser.from_string / JsonParser.from_string / TreeParser.from_string and xsdata.formats.dataclass.serializers:XmlSerializer.render / JsonSerializer.render "
+        "(the whole package below them runs as is; only the schedule is symbolic)",
     ],
     "bounds": [
         "2 threads, each one operation from a pool of 12 (cold find_type by qname, fetch with xsi:type, build of the same / different classes, find_subclass, find_type_by_fields, wildcard match_namespace) on ONE shared cold XmlContext (or one shared XmlVar)",
         "the real methods are lowered at check time from their current source into generators that yield before every statement touching cache / xsi_cache / sys_modules / namespace_matches; "
         "the schedule = starting thread + the global step indices of <= 2 (quick) / 3 (thorough) preemptions, as symbolic integers: every schedule within the bound is executed",
         "selector driven: the schedule is enumerated by the solver's forking; each path runs concretely",
+        "fullcall: 2 real threads sharing ONE cold XmlContext and ONE XmlParser / JsonParser / TreeParser / XmlSerializer / JsonSerializer instance; thread A (one complete parse / render call of a pool document) is suspended at "
+        "its k-th line event inside the xsdata package, k a symbolic integer over EVERY line boundary of the call (1k-6k per call, also inside comprehensions, sort keys and nested calls); thread B then runs one complete call; A resumes. "
+        "Both results must equal the results of the calls run alone on fresh instances. quick: 6 x 5 operation pairs with 11 loaded model classes; thorough: 102 x 12 pairs with all harness classes loaded",
     ],
-    "outside": ["preemption inside a statement", "more than 2 threads, more preemptions", "the parsers' per-call state (not shared by design)", "full parse / serialize calls (only the context / XmlVar API they use is lowered)"],
+    "outside": ["preemption inside a statement", "more than 2 threads, more preemptions", "the parsers' per-call state (not shared by design)", "full parse / serialize calls with more than one preemption (fullcall explores exactly one suspension of A with B atomic; finer interleavings only for the lowered context / XmlVar API)", "from_path / XInclude / file I/O"],
     "stubs": ["XmlContext.get_subclasses(object) iterates a pool of model classes (the set of loaded classes is environment)", "coroutine lowering (sched/__init__.py) stands for thread preemption at statement boundaries"],
     "assumptions": ["the GIL makes single bytecode-level dict/list operations atomic; a statement boundary is a possible preemption point"],
 }
@@ -173,13 +178,184 @@ def replay_real(a, b, start, p1, p2, p3, p4=-1, p5=-1):
     return {"real_threads": repr(got), "solo": repr(want), "real_threads_diverge": got != want, "ops": [ops[a][0], ops[b][0]]}
 
 
+# ---------------------------------------------------------------------------------------------------------------------
+# full calls on SHARED parser / serializer instances: thread A is suspended at one line boundary anywhere inside the
+# xsdata package (symbolic index k into A's line events), thread B then runs one complete call, A resumes.
+# Real threads, the real (unlowered) code, real lxml / expat / json front ends: the schedule is the only symbolic input.
+
+FULL_DOCS = ["holder", "unionmodels", "basic", "wild", "unions", "compound", "shapes", "family", "qnames", "enums", "anytyped", "wlderived", "mixed", "holdernest", "nillable", "parenta"]
+FULL_KINDS = ["xp", "xpn", "xs", "jp", "jpn", "js"]
+_FULL = None
+
+
+def _full_ops():
+    """[(label, callable(shared))]: index = len(FULL_KINDS) * doc index + kind index, then the extra operations."""
+    global _FULL
+    if _FULL is not None:
+        return _FULL
+    import dataclasses
+    import warnings
+
+    import harness.models as hm
+    from harness import mutate
+    from xsdata.formats.dataclass.serializers import JsonSerializer, XmlSerializer
+
+    warnings.simplefilter("ignore")
+    if PART.get("small"):  # the loaded model classes are environment: the quick tier loads only the ones its documents use
+        seam.stub_loaded_classes([Base, Derived, Sibling, DerivedNest, Child, Holder, Basic, Wild, UnionModels, Numeric, Textual])
+    else:
+        seam.stub_loaded_classes([c for c in vars(hm).values() if isinstance(c, type) and dataclasses.is_dataclass(c) and c.__module__ == hm.__name__])
+    c0 = XmlContext()
+    xs, js = XmlSerializer(context=c0), JsonSerializer(context=c0)
+    ops = []
+    for name in FULL_DOCS:
+        cls, obj = mutate.DOCS[name]
+        xml, jsn = xs.render(obj), js.render(obj)
+        ops.append(("xp:" + name, lambda s, xml=xml, cls=cls: s["xp"].from_string(xml, cls)))
+        ops.append(("xpn:" + name, lambda s, xml=xml: s["xp"].from_string(xml)))
+        ops.append(("xs:" + name, lambda s, obj=obj: s["xs"].render(obj)))
+        ops.append(("jp:" + name, lambda s, jsn=jsn, cls=cls: s["jp"].from_string(jsn, cls)))
+        ops.append(("jpn:" + name, lambda s, jsn=jsn: s["jp"].from_string(jsn)))
+        ops.append(("js:" + name, lambda s, obj=obj: s["js"].render(obj)))
+    bad = '<basic xmlns="urn:a"><i>abc</i><s>q</s></basic>'
+    ops.append(("xp:badint", lambda s: s["xp"].from_string(bad, Basic)))
+    ops.append(("jp:badint", lambda s: s["jp"].from_string('{"i": "abc", "s": "q"}', Basic)))
+    unk = '<holder xmlns="urn:a" xmlns:xsi="http://www.w3.org/2001/XMLSchema-instance"><b xsi:type="nope"><x>1</x></b></holder>'
+    ops.append(("xp:unknown-xsi", lambda s: s["xp"].from_string(unk, Holder)))
+    ops.append(("xpn:unknown-root", lambda s: s["xp"].from_string('<nope xmlns="urn:zz"/>')))
+    ops.append(("xpn:derived-root", lambda s: s["xp"].from_string('<derived xmlns="urn:a"><x>1</x><y>q</y></derived>')))
+    ops.append(("tp:wild", lambda s, xml=xs.render(mutate.DOCS["wild"][1]): s["tp"].from_string(xml)))
+    _FULL = ops
+    return ops
+
+
+def full_index(label):
+    return [n for n, _ in _full_ops()].index(label)
+
+
+def _full_shared():
+    from xsdata.formats.dataclass.parsers import JsonParser, TreeParser, XmlParser
+    from xsdata.formats.dataclass.serializers import JsonSerializer, XmlSerializer
+
+    c = XmlContext()
+    return {"xp": XmlParser(context=c), "xs": XmlSerializer(context=c), "jp": JsonParser(context=c), "js": JsonSerializer(context=c), "tp": TreeParser(context=c)}
+
+
+def _full_call(f, shared):
+    try:
+        return ("ok", f(shared))
+    except Exception as e:  # noqa: BLE001
+        return ("exc", type(e).__name__, str(e)[:120])
+
+
+def _full_root():
+    import os
+
+    import xsdata
+
+    return os.path.dirname(os.path.abspath(xsdata.__file__)) + os.sep
+
+
+def _full_run(fa, fb, k):
+    """A on its own thread under a line hook; at A's k-th line event inside the xsdata package B runs to completion on a second thread."""
+    import sys
+    import threading
+
+    shared, out, count, root = _full_shared(), {}, [0], _full_root()
+
+    def local(frame, event, arg):
+        if event == "line":
+            if count[0] == k:
+                t = threading.Thread(target=lambda: out.__setitem__("b", _full_call(fb, shared)))
+                t.start()
+                t.join()
+            count[0] += 1
+        return local
+
+    def glob(frame, event, arg):
+        return local if frame.f_code.co_filename.startswith(root) else None
+
+    def body():
+        sys.settrace(glob)
+        try:
+            out["a"] = _full_call(fa, shared)
+        finally:
+            sys.settrace(None)
+
+    t = threading.Thread(target=body)
+    t.start()
+    t.join()
+    return out, count[0]
+
+
+_FULL_INFO = {}
+
+
+def _full_info(a):
+    """(solo results of every operation on a fresh shared state, number of line events of operation a)."""
+    if "solo" not in _FULL_INFO:
+        with untraced():
+            ops = _full_ops()
+            for _n, f in ops:
+                _full_call(f, _full_shared())  # warm process-global memo tables (lru caches) so that line counts are stable
+            _FULL_INFO["solo"] = [_full_call(f, _full_shared()) for _n, f in ops]
+    if a not in _FULL_INFO:
+        with untraced():
+            ops = _full_ops()
+            _FULL_INFO[a] = _full_run(ops[a][1], ops[a][1], -1)[1]
+    return _FULL_INFO["solo"], _FULL_INFO[a]
+
+
+def _full_nlines():
+    return _full_info(PART.get("a", 0))[1]
+
+
+def fullcall(a: int, b: int, k: int) -> bool:
+    """
+    pre: a == PART.get("a", 0)
+    pre: b == PART.get("b", 0)
+    pre: 0 <= k < _full_nlines()
+    post: _
+    """
+    ca, cb = PART.get("a", 0), PART.get("b", 0)
+    ck = concretize_bs(k, _full_nlines())
+    with untraced():
+        return result(_fullcall(ca, cb, ck)["ok"])
+
+
+def _fullcall(a, b, k):
+    solo, _n = _full_info(a)
+    ops = _full_ops()
+    out, _steps = _full_run(ops[a][1], ops[b][1], k)
+    if "b" not in out:
+        return {"ok": True, "skipped": "preemption index beyond the end of A"}
+    return {"ok": out["a"] == solo[a] and out["b"] == solo[b], "a": ops[a][0], "b": ops[b][0], "a_diverges": out["a"] != solo[a], "b_diverges": out["b"] != solo[b],
+            "a_got": repr(out["a"])[:300], "a_solo": repr(solo[a])[:300], "b_got": repr(out["b"])[:300], "b_solo": repr(solo[b])[:300]}
+
+
+def explain_full(a, b, k):
+    return _fullcall(a, b, k)
+
+
 PRE = {}
-EXPLAIN = {"interleave": replay_real}
+EXPLAIN = {"interleave": replay_real, "fullcall": explain_full}
+
+
+FULL_QUICK_A = ["xp:holder", "xpn:holder", "xp:unionmodels", "xp:wild", "xs:holder", "jpn:holder"]
+FULL_QUICK_B = ["xp:holder", "xp:badint", "xp:wild", "jpn:holder", "xp:unionmodels"]
+FULL_THOROUGH_B = FULL_QUICK_B + ["xs:holder", "xpn:derived-root", "xp:unknown-xsi", "jp:family", "js:holder", "tp:wild", "xp:compound"]
 
 
 def plan(tier):
     jobs = []
     quick = tier == "quick"
+    labels = [n for n, _ in _full_ops()]
+    for la in FULL_QUICK_A if quick else labels:
+        for lb in FULL_QUICK_B if quick else FULL_THOROUGH_B:
+            part = {"a": labels.index(la), "b": labels.index(lb)}
+            if quick:
+                part["small"] = 1
+            jobs.append(Job("fullcall", part, 900 if quick else 3000, 60, note=f"A={la} suspended at any line boundary, B={lb} runs to completion"))
     for a in range(NOPS):
         if quick:
             # every pair with <= 1 preemption; pairs of operations that use the type index with <= 2 preemptions
